@@ -173,9 +173,19 @@ class PureSnapshot:
         context (Dict[str, Any]): The context after the step.
         status (str): `"active"`, `"done"` or `"error"`.
         output (Any): Output when the machine completed.
+        history (Dict[str, List[str]]): Remembered history, keyed by the id
+            of the state owning the history node: the ids of the states that
+            were active below it when it was last exited.
     """
 
-    __slots__ = ("state_ids", "configuration", "context", "status", "output")
+    __slots__ = (
+        "state_ids",
+        "configuration",
+        "context",
+        "status",
+        "output",
+        "history",
+    )
 
     def __init__(
         self,
@@ -184,6 +194,7 @@ class PureSnapshot:
         context: Dict[str, Any],
         status: str = "active",
         output: Any = None,
+        history: Optional[Dict[str, List[str]]] = None,
     ) -> None:
         """Initializes the snapshot.
 
@@ -193,12 +204,14 @@ class PureSnapshot:
             context: The context after the step.
             status: Lifecycle status.
             output: Completion output, if any.
+            history: Remembered history (owner id -> remembered state ids).
         """
         self.state_ids = state_ids
         self.configuration = configuration
         self.context = context
         self.status = status
         self.output = output
+        self.history = history if history is not None else {}
 
     def matches(self, state_id: str) -> bool:
         """Reports whether a state is active in this snapshot.
@@ -338,6 +351,13 @@ def _capture(probe: Any) -> PureSnapshot:
         context=copy.deepcopy(probe.context),
         status=status,
         output=probe.output,
+        # 🕰️ Remembered history travels with the snapshot (as ids, like the
+        #    persisted snapshot), otherwise the next `transition()` call
+        #    starts from a probe that has forgotten it.
+        history={
+            parent_id: [node.id for node in nodes]
+            for parent_id, nodes in probe._history.items()
+        },
     )
 
 
@@ -400,6 +420,20 @@ def transition(
         node = machine.get_state_by_id(state_id)
         if node is not None:
             probe._active_state_nodes.add(node)
+
+    # 🕰️ Restore remembered history so a history target still resolves to
+    #    what an earlier call recorded. `_record_history` keeps each list in
+    #    (depth, id) order and that order decides the entry order of a deep
+    #    restore, so it is re-established here (see `from_snapshot`).
+    for parent_id, node_ids in (snapshot.history or {}).items():
+        nodes = [
+            node
+            for node in map(machine.get_state_by_id, node_ids)
+            if node is not None
+        ]
+        if nodes:
+            nodes.sort(key=lambda n: (n.depth, n.id))
+            probe._history[parent_id] = nodes
 
     # 📭 Only actions from THIS step should be reported.
     recorded.clear()
